@@ -1297,7 +1297,9 @@ def _apply_solver_cfg(om, model, gobj, cfg):
             return om.DirectSolver(assemble_jac=True, rhs_checking=rc)
         if kind == 'krylov':
             s = om.ScipyKrylov(assemble_jac=bool(cfg.get('jac')), rhs_checking=rc)
-            s.options['atol'] = 1e-10
+            # relative tolerance only: generated models can have derivative seeds far below any fixed
+            # absolute tolerance (gmres returns x0 = 0 at once when |b| < atol)
+            s.options['atol'] = 1e-200
             s.options['rtol'] = 1e-10
             s.options['err_on_non_converge'] = bool(cfg.get('krylov_err', True))
             s.options['maxiter'] = 200
